@@ -56,7 +56,9 @@ def fit_case(cid, kind, P, Hd, order, queries, s, tolerance=1e-12, xdtype=None):
     try:
         with warnings.catch_warnings():
             warnings.simplefilter("ignore")
-            m = core.mk(DirectionalConvexHull, low_dim_idx=cols, tolerance=tolerance).fit(X, y)
+            # the documented default of low_dim_idx (None) means "the first column"
+            lowarg = None if (list(cols) == [0] and (n + nh) % 2 == 0) else cols
+            m = core.mk(DirectionalConvexHull, low_dim_idx=lowarg, tolerance=tolerance).fit(X, y)
             dist = m.score_samples(X, y) * s
             c["sel"] = [int(i) + 1 for i in m.selected_idx_]
             c["sgn"] = [int(np.sign(v)) if abs(v) > 1e-9 else 0 for v in dist]
